@@ -399,12 +399,14 @@ type vDialEv struct {
 }
 
 type vdialer struct {
-	lockNext   bool // the next client handed out has its mu read-locked by the harness
-	lockedCli  *BaseClient
-	flavour    func(conn int) int // transport flavour per connection (see memConn.flavour)
-	stateCalls func(*BaseClient)  // what the application does inside its ConnState callback
-	b          *vbroker
-	mu         sync.Mutex
+	ignoreCtx   bool // the held dial does not end when its context does
+	stallWrites bool // every transport handed out blocks in Write from the start (a peer that accepts the connection and reads nothing)
+	lockNext    bool // the next client handed out has its mu read-locked by the harness
+	lockedCli   *BaseClient
+	flavour     func(conn int) int // transport flavour per connection (see memConn.flavour)
+	stateCalls  func(*BaseClient)  // what the application does inside its ConnState callback
+	b           *vbroker
+	mu          sync.Mutex
 
 	attempts int
 	dials    []vDialEv
@@ -465,7 +467,9 @@ func (d *vdialer) DialContext(ctx context.Context) (*BaseClient, error) {
 		d.dials = append(d.dials, ev)
 		d.mu.Unlock()
 	}
-	if gate != nil {
+	if gate != nil && d.ignoreCtx {
+		<-gate // a dialler that does not honour its context (NoContextDialer, a TLS / WebSocket handshake)
+	} else if gate != nil {
 		select {
 		case <-gate:
 		case <-ctx.Done():
@@ -505,6 +509,9 @@ func (d *vdialer) DialContext(ctx context.Context) (*BaseClient, error) {
 	c.mc.maxRead = d.maxRead
 	if d.flavour != nil {
 		c.mc.flavour = d.flavour(k)
+	}
+	if d.stallWrites {
+		atomic.StoreInt32(&c.mc.blockWrites, 1)
 	}
 	if d.unsafe {
 		c.mc.unsafeMode, c.mc.yieldEvery = true, 2
